@@ -60,6 +60,9 @@ type VerifRec struct {
 	// Gated: go through the REAL per-codec callbacks that formatFMP4.initialize registers (video = AV1 at 90 kHz,
 	// audio = Opus at 48 kHz), i.e. including the first-random-access gate, instead of calling track.write directly.
 	Gated bool
+	// OnWriteError is called when the writer returns an error, BEFORE the instance is closed (as the recorder logs the
+	// error before recorderInstance.run closes the format).
+	OnWriteError func(err error)
 
 	f      *formatFMP4
 	closed bool
@@ -168,6 +171,9 @@ func (v *VerifRec) Write(s VerifSample) error {
 		}
 		err := v.cbs[s.Track](u)
 		if err != nil {
+			if v.OnWriteError != nil {
+				v.OnWriteError(err)
+			}
 			v.Close()
 		}
 		return err
@@ -182,6 +188,9 @@ func (v *VerifRec) Write(s VerifSample) error {
 		ntp: s.NTP,
 	})
 	if err != nil {
+		if v.OnWriteError != nil {
+			v.OnWriteError(err)
+		}
 		v.Close()
 	}
 	return err
